@@ -16,6 +16,7 @@ One request per line, fields separated by `|` (protocol documented in harness/c-
   layout|<p>|<T>                → size=<n> align=<n> csize=<n> calign=<n>   (canonical vs. C struct layout model)
   cfree|<p>|<late 0|1>|<T>|<VAL> → ok sizes=<n,…>   byte sizes of the blocks the generated `<T>_free` helper frees, in order
                                   (late = 1: helper generated in a pass after the one that defined the shared anonymous types)
+  dtor|<hex module>|<hex resource name>  → <hex model export name> <hex spec export name>
   csig|<flat 0|1>|(<shape> …)|<shape or _>  → params=<v0,p1,m2,o:ok,…> ret=<void|value|bool-option|bool-result> names=<ret,err,…>
 -/
 open Witverif.Abi Witverif.Abi.CHost Drivers Drivers.AbiParse
@@ -118,6 +119,10 @@ def handle (line : String) : String :=
             | none => 0
           "ok sizes=" ++ natsStr sizes
       | _, _, _ => "bad-request"
+  | ["dtor", m, n] =>
+      match hexToChars m, hexToChars n with
+      | some m, some n => charsToHex (CProfile.cDtorExportName m n) ++ " " ++ charsToHex (CProfileSpec.dtorExportName m n)
+      | _, _ => "bad-request"
   | ["csig", fl, ps, r] =>
       match parseOne ps, parseOne r with
       | some (.list pss), some rs =>
